@@ -7,7 +7,7 @@ from mailbox import Error as MailboxError
 from mailbox import Maildir, Message, mbox
 
 from pygopherd import GopherExceptions, gopherentry
-from pygopherd.handlers.base import VFS_Real
+from pygopherd.handlers.base import is_real_vfs
 from pygopherd.handlers.virtual import Virtual
 
 
@@ -58,7 +58,7 @@ class MessageHandler(Virtual):
         """We put MBOX-MESSAGE in here so we don't have to re-check
         the first line of the mbox file before returning a true or false
         result."""
-        if not self.selectorargs:
+        if not self.selectorargs or not is_real_vfs(self.vfs):
             return False
 
         pattern = "^" + self.getargflag() + r"(\d+)$"
@@ -134,7 +134,7 @@ class MBoxFolderHandler(FolderHandler):
         """Figure out if this is a handleable request."""
         # Must be a real file
         if (
-            not isinstance(self.vfs, VFS_Real)
+            not is_real_vfs(self.vfs)
             or self.selectorargs
             or not self.statresult
             or not stat.S_ISREG(self.statresult[stat.ST_MODE])
@@ -179,7 +179,7 @@ class MBoxMessageHandler(MessageHandler):
 
 class MaildirFolderHandler(FolderHandler):
     def canhandlerequest(self):
-        if not isinstance(self.vfs, VFS_Real):
+        if not is_real_vfs(self.vfs):
             return 0
         if self.selectorargs:
             return 0
